@@ -155,6 +155,7 @@ MUTS={
                     merged.pop(name, None)
                     merged[name] = value
             service.notify_changed_state_variables(merged)"""))),
+ "C09-M7-eager-HTTPStatus-phrase": ("C09", lambda: rep(EH, '_LOGGER.debug("Did not receive 200, but %s", response_status)', '_LOGGER.debug("Did not receive 200, but %s", HTTPStatus(response_status).phrase)', 3)),
  "C11-M1-replay-newest-only": ("C11", lambda: rep(EH, "for item in self._backlog[sid]:", "for item in self._backlog[sid][-1:]:")),
  "C11-M2-delete-before-replay": ("C11", lambda: rep(EH, """            for item in self._backlog[sid]:
                 await self.handle_notify(item[0], item[1])
